@@ -2,6 +2,7 @@ import warnings
 import string
 import copy
 import numpy as np
+import itertools
 from dimarray.compat.pycompat import zip
 from dimarray.tools import is_DimArray, is_array1d_equiv, format_doc, isscalar
 from dimarray.core.bases import AbstractAxis, AbstractAxes, GetSetDelAttrMixin
@@ -435,9 +436,11 @@ class MultiAxis(Axis):
         if len(self.axes) == 1:
             return self.axes[0].values
 
-        aval = _flatten(*[ax.values for ax in self.axes])
-        val = np.empty(aval.shape[0], dtype=object)
-        val[:] = list(zip(*aval.T.tolist())) # pass a list of tuples
+        # all combinations of the member labels in row-major order (built from the labels themselves: going through one
+        # typed 2-D array would convert numbers next to strings into strings)
+        tuples = list(itertools.product(*[ax.values.tolist() for ax in self.axes]))
+        val = np.empty(len(tuples), dtype=object)
+        val[:] = tuples # pass a list of tuples
         return val 
 
     @property
